@@ -15,7 +15,7 @@ correspondence(ctx): every primitive on generated valid encodings (boundary leng
 search(ctx): the property predicate on the real implementation: round trips through
   every encoding, every truncation / extension / single-byte mutation must be rejected
   with a documented error or (mutations only) yield a key; structural malformations
-  (the witnesses of the `_refuted` theorems); the bec2format plug-in round trip; and,
+  (elements deleted / emptied / shortened / duplicated); the bec2format plug-in round trip; and,
   when an openssl binary exists, byte compatibility in both directions.
 """
 import base64
@@ -25,7 +25,19 @@ import subprocess
 import tempfile
 import time
 
-from vlib import qN, qZ, qbytes, qlist, qopt, run_impl, canon_exc
+from vlib import qbytes, qlist, qopt, run_impl, canon_exc
+import vlib
+
+
+def qN(n):
+    """N literal; large numbers in hexadecimal (coqc parses a decimal literal in quadratic time)"""
+    return vlib.qN(n) if n < (1 << 32) else "0x%x%%N" % n
+
+
+def qZ(n):
+    if abs(n) < (1 << 32):
+        return vlib.qZ(n)
+    return "(0x%x)%%Z" % n if n >= 0 else "(Z.opp 0x%x%%Z)" % -n
 
 GEN_DEPS = ("Consts.v", "gen_consts", "KeyOids.v", "gen_keyoids")
 MODEL_TARGETS = ["Model/Der.vo", "Model/KeyCodec.vo"]
@@ -346,7 +358,7 @@ def corr_der(ctx, cs):
         cs.add("encode_integer", "res_eqb bytes_eqb (Ok (encode_integer %s)) %s" % (qN(v), qr(e, qb)), v)
         s = e[1] + r.choice([b"", rbytes(r, 2)])
         cs.add("remove_integer", "res_eqb %s (remove_integer %s) %s" % (EQ_NB, qb(s), qr(run(d.remove_integer, s), q_Nb)), s)
-        for what, m in (malformed_stream(r, e[1])[:ctx.budget(8, 40)] if v % 3 == 0 or not ctx.quick() else []):
+        for what, m in (malformed_stream(r, e[1])[:ctx.budget(8, 16)] if v % 3 == 0 or not ctx.quick() else []):
             cs.add("remove_integer/" + what, "res_eqb %s (remove_integer %s) %s" % (
                 EQ_NB, qb(m), qr(run(d.remove_integer, m), q_Nb)), m)
     for body in (b"", b"\x00", b"\x00\x00", b"\x00\x7f", b"\x00\x80", b"\x80", b"\xff\xff", b"\x00\x00\x80", b"\x7f" * 130):
@@ -382,7 +394,7 @@ def corr_der(ctx, cs):
         s = e[1] + r.choice([b"", rbytes(r, 2)])
         cs.add("remove_object", "res_eqb %s (remove_object %s) %s" % (
             EQ_OB, qb(s), qr(run(d.remove_object, s), lambda v: qpair(qNl(v[0]), qb(v[1])))), s)
-        for what, m in (malformed_stream(r, e[1])[:ctx.budget(6, 40)] if len(o) % 2 or not ctx.quick() else []):
+        for what, m in (malformed_stream(r, e[1])[:ctx.budget(6, 16)] if len(o) % 2 or not ctx.quick() else []):
             cs.add("remove_object/" + what, "res_eqb %s (remove_object %s) %s" % (
                 EQ_OB, qb(m), qr(run(d.remove_object, m), lambda v: qpair(qNl(v[0]), qb(v[1])))), m)
     for body in (b"", b"\x80", b"\x80\x01", b"\x2a\x80\x01", b"\x2a\x81", b"\x2a\xff\xff", b"\x81\x00", b"\x78", b"\x4f", b"\x50"):
@@ -568,7 +580,7 @@ def corr_keys(ctx, cs):
                 streams = [("valid", e[1])]
                 if kind in ("rand", "leading-zero"):
                     streams += [("trunc", e[1][:-1]), ("trunc", e[1][:1]), ("ext", e[1] + b"\x00"), ("empty", b"")]
-                    streams += [("mut", m) for _, _, m in mutations(e[1], r, ctx.budget(8, 120))]
+                    streams += [("mut", m) for _, _, m in mutations(e[1], r, ctx.budget(8, 32))]
                     if pe == "hybrid":
                         streams.append(("hybrid-parity", bytes([e[1][0] ^ 1]) + e[1][1:]))
                 for what, s in streams:
@@ -592,7 +604,7 @@ def corr_keys(ctx, cs):
     # verifying / signing keys through DER
     for c in I.W:
         heavy_curve = c.name in HEAVY
-        for k in key_variants(r, c)[:ctx.budget(2 if heavy_curve else 1, 6)]:
+        for k in key_variants(r, c)[:ctx.budget(2 if heavy_curve else 1, 3)]:
             sk = K.SigningKey.from_secret_exponent(k, c)
             vk = sk.verifying_key
             x, y = int(vk.pubkey.point.x()), int(vk.pubkey.point.y())
@@ -650,10 +662,10 @@ def corr_from_der(ctx, cs, which, c, valid, heavy):
     r = ctx.rng
     streams = [("valid", valid)]
     n = len(valid)
-    cuts = {0, 1, n - 1} | set(r.randrange(n) for _ in range(ctx.budget(2, 12)))
+    cuts = {0, 1, n - 1} | set(r.randrange(n) for _ in range(ctx.budget(2, 6)))
     streams += [("trunc", valid[:k]) for k in sorted(cuts) if k < n]
     streams += [("ext", valid + b"\x00"), ("ext", valid + rbytes(r, 3))]
-    streams += [("mut", m) for _, _, m in mutations(valid, r, ctx.budget(24 if heavy else 6, 400 if heavy else 60))]
+    streams += [("mut", m) for _, _, m in mutations(valid, r, ctx.budget(24 if heavy else 6, 100 if heavy else 16))]
     for what, s in streams:
         variants = [(True, True)]
         if what == "valid":
@@ -886,7 +898,7 @@ class Searcher:
         self.per_kind = {}
         self.counts = {}
         scale = 3 if ctx.brokens else 1
-        self.t_end = time.time() + ctx.budget(55, 700) * scale
+        self.t_end = time.time() + ctx.budget(40, 480) * scale
 
     def time_left(self):
         return self.t_end - time.time()
@@ -1043,15 +1055,22 @@ def all_point_encodings_check(S, c, vk):
                     "extension by %d bytes of point/%s" % (len(ext), pe), c.name)
 
 
-WITNESSES = [
-    # (decoder, input hex, theorem) - the inputs of the _refuted theorems of Properties/C19.v
-    ("VerifyingKey.from_der", "3017301306072a8648ce3d020106082a8648ce3d0301070301", "C19_errors_vk_from_der_refuted"),
-    ("SigningKey.from_der", "3003020101", "C19_errors_sk_from_der_refuted"),
-    ("Curve.from_der", "300702010130003000", "C19_errors_curve_from_der_refuted"),
-    ("der.remove_octet_string", "", "C19_errors_primitives_refuted"),
-    ("der.remove_constructed", "", "C19_errors_primitives_refuted"),
-    ("der.remove_bitstring[0]", "0301", "C19_errors_primitives_refuted"),
-    ("der.read_number", "", "C19_errors_primitives_refuted"),
+REGRESSIONS = [
+    # (decoder, input hex, note) - inputs that raised IndexError before /repo commit 430b0b7 (the
+    # witnesses of the then-refuted error-closure theorems); must be rejected with a documented error
+    ("VerifyingKey.from_der", "3017301306072a8648ce3d020106082a8648ce3d0301070301", "bit string header without content"),
+    ("SigningKey.from_der", "3003020101", "SEQ{INT 1}"),
+    ("SigningKey.from_der", "307702010104a01e2feb89414c343c1027c4d1c386bbc4cd613e30d8f16adf91b7584a2265b1f6a00a06082a8648ce3d030107"
+                            "a14403420004696d724d9ca18306d21e5849dd0b45cdbdad0a5878e8ee1f9679d49d1b524d54bfc64470f942da1519a5fb5dc6"
+                            "ad02f74ef14871c50069c912356f661336fac7", "octet-string length byte 20 -> a0 in a P-256 SEC1 key"),
+    ("Curve.from_der", "300702010130003000", "empty curve sequence"),
+    ("der.remove_octet_string", "", "empty input"),
+    ("der.remove_octet_string", "040501", "length longer than the buffer"),
+    ("der.remove_constructed", "", "empty input"),
+    ("der.remove_constructed", "a00501", "length longer than the buffer"),
+    ("der.remove_bitstring[0]", "0301", "length longer than the buffer"),
+    ("der.remove_bitstring[0]", "03050001", "length longer than the buffer"),
+    ("der.read_number", "", "empty input"),
 ]
 
 
@@ -1084,9 +1103,9 @@ def search(ctx):
     K = I.keys
     DEC = decoders(I)
     quick = ctx.quick() and not ctx.brokens
-    # 0. the witnesses of the _refuted theorems, replayed on the implementation
-    for dec, hx, thm in WITNESSES:
-        S.probe(dec, DEC[dec], bytes.fromhex(hx), "reject", "witness of %s" % thm)
+    # 0. regression inputs (IndexError / truncated bodies accepted before the fix of the removers)
+    for dec, hx, note in REGRESSIONS:
+        S.probe(dec, DEC[dec], bytes.fromhex(hx), "reject", "regression %s" % note)
     # 0b. primitives on short malformed strings
     for name in ("der.remove_sequence", "der.remove_integer", "der.remove_object", "der.remove_octet_string",
                  "der.remove_constructed", "der.remove_bitstring[0]", "der.read_length", "der.read_number"):
@@ -1135,6 +1154,7 @@ def search(ctx):
                 S.probe(dec, f, m, "any", "structure %s of %s" % (how, label), c.name)
     # 4. every single-byte mutation (xor 01, xor 80, set 00, set FF): named encodings first, then
     #    explicit parameters and PEM, until the time budget is used up
+    ctx.extra["search_fixed_part_s"] = round(time.time() - (S.t_end - ctx.budget(40, 480) * (3 if ctx.brokens else 1)), 1)
     order = sorted(range(len(plan)), key=lambda i: (plan[i][2].endswith("/explicit") or plan[i][2].startswith("pem"),
                                                     plan[i][0].name not in HEAVY, r.random()))
     done = 0
